@@ -123,7 +123,7 @@ func (s *LinkedLog) Read(offset uint64) ([]OffsetAndSizeAndSlot, indexes.OffsetA
 	if n <= 0 {
 		return nil, indexes.OffsetAndSize{}, errors.New("invalid compacted indexes length")
 	}
-	return s.ReadWithSize(offset, compactedIndexesLen)
+	return s.ReadWithSize(offset, uint64(n)+compactedIndexesLen)
 }
 
 func sizeOfUvarint(n uint64) int {
@@ -135,12 +135,19 @@ func (s *LinkedLog) ReadWithSize(offset uint64, size uint64) ([]OffsetAndSizeAnd
 		return nil, indexes.OffsetAndSize{}, fmt.Errorf("compacted indexes length too large: %d", size)
 	}
 	// debugln("compactedIndexesLen:", compactedIndexesLen)
-	// Read the compressed indexes
-	data := make([]byte, size-uint64(sizeOfUvarint(size))) // The size bytes have already been read.
-	_, err := s.file.ReadAt(data, int64(offset)+int64(sizeOfUvarint(size)))
+	// Read the whole record: uvarint(payload length) + compressed indexes + previous pointer.
+	record := make([]byte, size)
+	_, err := s.file.ReadAt(record, int64(offset))
 	if err != nil {
 		return nil, indexes.OffsetAndSize{}, err
 	}
+	// The width of the length prefix is the width of the stored uvarint (NOT the width of `size`,
+	// which includes the prefix itself and can be one byte wider around 128 and 16384).
+	payloadLen, prefixLen := binary.Uvarint(record)
+	if prefixLen <= 0 || uint64(prefixLen)+payloadLen != size || payloadLen < 9 {
+		return nil, indexes.OffsetAndSize{}, fmt.Errorf("invalid record at offset %d: size=%d, stored payload length=%d", offset, size, payloadLen)
+	}
+	data := record[prefixLen:]
 	// debugln_(func() []any { return []any{"data:", bin.FormatByteSlice(data)} })
 	// the indexesBytes are up until the last 8 bytes, which are the `next` offset.
 	indexesBytes := data[:len(data)-9]
